@@ -64,10 +64,14 @@ func (nullFinder) FindDependencies(fsys interface{ Open(string) (interface{}, er
 	return nil
 }
 
-var sNames = []string{"a", "b", "d", "e", "main.tf", ".git", ".terraform", "modules", "logs", "x y", "é", "keep", "..data", "...", ".hidden"}
+var sNames = []string{"a", "b", "d", "e", "main.tf", ".git", ".terraform", "modules", "logs", "x y", "é", "keep", "..data", "...", ".hidden",
+	// a backslash is an ordinary file-name character (seed C03-g): each of these is one path segment
+	`logs\x.log`, `d\keep`, `sub\id.pem`, `\a`}
 var sRuleFiles = []string{"", "", "logs/\n", "*.log\n", "d/\n!d/keep\n", "a\n", "d\n", "/e\n", "d/*\n", "!.terraform/\n", "logs/\nb\n", "**/keep\n",
 	// a negation followed by a plain exclusion that re-excludes part of it (seed C10-e: last match wins)
-	"*.log\n!x.log\nlogs/*.log\n", "d/\n!d/keep\nd/ke*\n", "a\n!a\na\n"}
+	"*.log\n!x.log\nlogs/*.log\n", "d/\n!d/keep\nd/ke*\n", "a\n!a\na\n",
+	// verdicts that depend on where a segment ends, for names with a backslash (the patterns have none)
+	"/*.pem\nlogs/\n", "/?a\nd/*\n"}
 
 func genFetched(r *Rng) []PNode {
 	var nodes []PNode
@@ -113,7 +117,7 @@ type simpleFinder struct{}
 
 func init() {
 	lanes["sanitise"] = func(cfg *Config, rep *Report) {
-		rep.Rule = "one fetched package tree per build: 1..9 nodes (files, directories, fifos, links over 22 target shapes: in-package relative and absolute-into-the-work-directory, dangling, to a directory, to a sibling package, to the manifest name, out of the bundle, through ignored directories, '..' detours) plus one of 15 rule files; two corpus trees with generated rule files (about 1 MiB of short lines with the rules that matter at the end; a 70 KiB comment line) judged by the oracle only; non-trivial = has a link, a fifo or a rule file; distinct by tree"
+		rep.Rule = "one fetched package tree per build: 1..9 nodes (files, directories, fifos, links over 22 target shapes: in-package relative and absolute-into-the-work-directory, dangling, to a directory, to a sibling package, to the manifest name, out of the bundle, through ignored directories, '..' detours) plus one of 17 rule files; names incl. backslashes (ordinary characters); corpus trees with backslash names under anchored / directory / wildcard rules, and with .git / .terraform content at two depths next to a rule file of zero bytes, of one newline, and none; two corpus trees with generated rule files (about 1 MiB of short lines with the rules that matter at the end; a 70 KiB comment line) judged by the oracle only; non-trivial = has a link, a fifo or a rule file; distinct by tree"
 		r := NewRng(cfg.Seed)
 		work, err := filepath.EvalSymlinks(cfg.Work)
 		if err != nil {
@@ -139,6 +143,15 @@ func init() {
 			{{Path: "a", Kind: "f", Perm: 0644, Data: "x"}, {Path: "z", Kind: "l", Data: "."}, {Path: "l", Kind: "l", Data: "z/../@WORKBASE@/a"}},
 			{{Path: "a", Kind: "f", Perm: 0644, Data: "x"}, {Path: "d", Kind: "d", Perm: 0755}, {Path: "d/l", Kind: "l", Data: "../a"}},
 			{{Path: "d", Kind: "d", Perm: 0755}, {Path: "d/keep", Kind: "f", Perm: 0644, Data: "k"}, {Path: "d/x", Kind: "f", Perm: 0644, Data: "x"}, {Path: ".terraformignore", Kind: "f", Perm: 0644, Data: "d/\n!d/keep\n"}},
+			// names with a backslash next to rules whose verdict depends on segment boundaries (seed C03-g):
+			// the top-level file `sub\id.pem` is covered by '/*.pem', `logs\notes.txt` is not covered by 'logs/'
+			backslashNamesTree("# keys at the top level, the log directory\n/*.pem\nlogs/\n"),
+			backslashNamesTree("/su?/*.pem\n?lead\ntrail*/x*\n"),
+			// the built-in exclusions apply whatever the rule file holds, also one of zero bytes (seed C10-g:
+			// an empty rule set for an empty file), of one newline, or none: .git and .terraform content is
+			// removed at any depth. (.terraform/modules goes with .terraform: finding F9, in a tree of its own.)
+			builtinExclusionsTree(true, "", false), builtinExclusionsTree(true, "\n", false), builtinExclusionsTree(false, "", false),
+			builtinExclusionsTree(true, "", true),
 			// oracle only (generated rule files are not sent to the model): a rule file of a bit more than
 			// 1 MiB of short valid lines with the exclusions that matter at its end (seed C10-f: the rule file
 			// read through a 1 MiB LimitReader) ...
@@ -317,7 +330,7 @@ func init() {
 					}
 					if !oExcluded(orules, nd.Path) {
 						if _, err := os.Lstat(filepath.Join(final, nd.Path)); err != nil {
-							fail("C03", nd.Path+" is not excluded by the rules but was removed from the bundle package", "bundle.reinclude-below-excluded-dir")
+							fail("C03", nd.Path+" is not excluded by the rules but was removed from the bundle package", bundlePruneSignature(orules, nd.Path))
 						}
 					}
 				}
@@ -398,6 +411,69 @@ func init() {
 			}
 		}
 	}
+}
+
+func backslashNamesTree(rules string) []PNode {
+	return []PNode{
+		{Path: "main.tf", Kind: "f", Perm: 0644, Data: "m"},
+		{Path: "id.pem", Kind: "f", Perm: 0600, Data: "top-level key"},
+		{Path: "sub", Kind: "d", Perm: 0755},
+		{Path: "sub/id.pem", Kind: "f", Perm: 0600, Data: "kept: not at the top level"},
+		{Path: "sub/main.tf", Kind: "f", Perm: 0644, Data: "s"},
+		{Path: "sub/win\\style.tf", Kind: "f", Perm: 0644, Data: "w"},
+		{Path: "logs", Kind: "d", Perm: 0755},
+		{Path: "logs/app.log", Kind: "f", Perm: 0644, Data: "log"},
+		{Path: "logs.txt", Kind: "f", Perm: 0644, Data: "l"},
+		{Path: "sub\\id.pem", Kind: "f", Perm: 0600, Data: "top-level key with a backslash in its name"},
+		{Path: "logs\\notes.txt", Kind: "f", Perm: 0644, Data: "kept: not below logs/"},
+		{Path: "\\lead", Kind: "f", Perm: 0644, Data: "leading"},
+		{Path: "trail\\", Kind: "d", Perm: 0755},
+		{Path: "trail\\/x\\y\\z", Kind: "f", Perm: 0644, Data: "xyz"},
+		{Path: "to-key", Kind: "l", Data: "sub/id.pem"},
+		{Path: ".terraformignore", Kind: "f", Perm: 0644, Data: rules},
+	}
+}
+
+func builtinExclusionsTree(withRuleFile bool, rules string, withTerraformModules bool) []PNode {
+	nodes := []PNode{
+		{Path: "main.tf", Kind: "f", Perm: 0644, Data: "m"},
+		{Path: ".git", Kind: "d", Perm: 0755},
+		{Path: ".git/HEAD", Kind: "f", Perm: 0644, Data: "ref: refs/heads/main"},
+		{Path: ".git/objects", Kind: "d", Perm: 0755},
+		{Path: ".git/objects/ab", Kind: "f", Perm: 0644, Data: "blob"},
+		{Path: ".terraform", Kind: "d", Perm: 0755},
+		{Path: ".terraform/terraform.tfstate", Kind: "f", Perm: 0600, Data: "state"},
+		{Path: ".terraform/providers", Kind: "d", Perm: 0755},
+		{Path: ".terraform/providers/x", Kind: "f", Perm: 0755, Data: "provider"},
+		{Path: "modules", Kind: "d", Perm: 0755},
+		{Path: "modules/child", Kind: "d", Perm: 0755},
+		{Path: "modules/child/main.tf", Kind: "f", Perm: 0644, Data: "c"},
+		{Path: "modules/child/.git", Kind: "d", Perm: 0755},
+		{Path: "modules/child/.git/HEAD", Kind: "f", Perm: 0644, Data: "ref"},
+		{Path: "modules/child/.terraform", Kind: "d", Perm: 0755},
+		{Path: "modules/child/.terraform/lock.json", Kind: "f", Perm: 0644, Data: "{}"},
+	}
+	if withTerraformModules {
+		nodes = append(nodes, PNode{Path: ".terraform/modules", Kind: "d", Perm: 0755}, PNode{Path: ".terraform/modules/m", Kind: "d", Perm: 0755},
+			PNode{Path: ".terraform/modules/m/main.tf", Kind: "f", Perm: 0644, Data: "not excluded on its own path"})
+	}
+	if withRuleFile {
+		nodes = append(nodes, PNode{Path: ".terraformignore", Kind: "f", Perm: 0644, Data: rules})
+	}
+	return nodes
+}
+
+// bundlePruneSignature: the file is gone because the builder removed a directory above it on
+// "Excluded" alone (tested as "dir" and as "dir/"), although the file's own path is not excluded (F9).
+func bundlePruneSignature(rules []oRule, rel string) string {
+	segs := strings.Split(rel, "/")
+	for i := 1; i < len(segs); i++ {
+		d := strings.Join(segs[:i], "/")
+		if oExcluded(rules, d) || oExcluded(rules, d+"/") {
+			return "bundle.reinclude-below-excluded-dir"
+		}
+	}
+	return ""
 }
 
 func bigRuleFileTree(fillKind string, fillBytes int) []PNode {
